@@ -46,3 +46,10 @@ Example C11_ex :
   main s = MDone /\ proj 0 0 (evlog s) = [0;1;1;2] /\ proj 0 1 (evlog s) = [0;1;1;1;2] /\ proj 2 0 (evlog s) = [] /\
   exit_items s = 5.
 Proof. vm_compute. repeat split. Qed.
+
+(* (4) get_exit_results() belongs to the workers of the current generation: the result object of worker_exit is reset
+   whenever the pool starts workers (read off pool._start_workers), so values of earlier generations never add up *)
+From Mpv Require Import GenStruct GenParams OrderHist Hist HistProofs.
+Theorem C11_exit_results_reset_with_the_workers : start_workers_resets = true.
+Proof. exact start_workers_resets_spec. Qed.
+Print Assumptions C11_exit_results_reset_with_the_workers.
